@@ -583,6 +583,40 @@ def sig_worker(job):
     return n, fails, skipped
 
 
+def caller_maps_probe():
+    """"Evaluating any expression modifies neither ... the caller's ... namespace maps": the maps a caller hands to
+    get_node_tree(), XPathContext(), the parser and select() are compared before and after evaluations that read them
+    (namespace axis, in-scope-prefixes, name tests), for both tree libraries."""
+    import elementpath
+    import lxml.etree as LX
+    from elementpath import XPathContext, get_node_tree
+    fails, n = [], 0
+    exprs = ['/*/namespace::*', '//namespace::*', 'count(//*/namespace::*)', 'in-scope-prefixes(/*)', '//*/name()', '//p:a', '//*:a',
+             'namespace-uri-for-prefix("", /*)', '/*/namespace::p', 'for $e in //* return count($e/namespace::*)']
+    for lib, mk in (('etree', ET.fromstring), ('lxml', LX.fromstring)):
+        for text in ('<r xmlns="" xmlns:p="urn:p"><a/><p:a/></r>', '<r xmlns="urn:d" xmlns:p="urn:p"><a xmlns=""/><p:a/></r>'):
+            for version, P in parsers().items():
+                for expr in exprs:
+                    for how in ('tree', 'context', 'select'):
+                        maps = {'tree': {'p': 'urn:p', '': '', 'z': 'urn:z'}, 'parser': {'p': 'urn:p', '': ''}}
+                        before = {k: dict(v) for k, v in maps.items()}
+                        root = mk(text)
+
+                        def run():
+                            if how == 'tree':
+                                node = get_node_tree(root, namespaces=maps['tree'])
+                                return P(namespaces=maps['parser']).parse(expr).get_results(XPathContext(node))
+                            if how == 'context':
+                                return P(namespaces=maps['parser']).parse(expr).get_results(XPathContext(root, namespaces=maps['tree']))
+                            return elementpath.select(root, expr, namespaces=maps['tree'], parser=P)
+                        outcome(run)
+                        n += 1
+                        if maps != before:
+                            fails.append((dict(part='purity', outcome='caller_namespace_map_modified', how=how, lib=lib, parser=version),
+                                          dict(part='nsmap', expr=expr, parser=version, how=how, lib=lib, xml=text), before, {k: dict(v) for k, v in maps.items()}))
+    return n, fails
+
+
 def proj_result(res):
     """Comparable, context-independent projection of an API result."""
     if not isinstance(res, list):
@@ -744,6 +778,12 @@ def replay(rec: dict) -> int:
                                                                parser=parsers()[case['parser']])))
         print('expr', case['expr'], '\nexpected', rec['expected'], '\nobserved', obs)
         return 0 if obs == rec['expected'] else 1
+    if case['part'] == 'nsmap':
+        n, fails = caller_maps_probe()
+        fails = [f for f in fails if f[1]['expr'] == case['expr'] and f[1]['how'] == case['how'] and f[1]['lib'] == case['lib'] and f[1]['parser'] == case['parser']]
+        for f in fails:
+            print(f[0], '\nexpected', f[2], '\nobserved', f[3])
+        return 1 if fails else 0
     if case['part'] == 'focus':
         n, fails = focus_worker([('2.0', case['expr'], case['law'])])
         fails = [f for f in fails if f[0]['parser'] == case['parser']]
@@ -870,6 +910,12 @@ def run(chk: core.Check) -> None:
     chk.add('traces_validated_against_impl', len(fp))
     chk.coverage['focus_family'] = dict(pairs=len(fp), evaluations=nf)
     print(f'  focus family: pairs={len(fp)} evaluations={nf}', flush=True)
+    # (5) caller-owned namespace maps: a node tree built by the caller with its own map, and the map given to the parser
+    n_ns, ns_fails = caller_maps_probe()
+    chk.add('evaluations', n_ns)
+    for feat, case, exp, obs in ns_fails:
+        chk.fail(feat, case, exp, obs, what=case['expr'])
+    chk.coverage['caller_map_probes'] = n_ns
     chk.sample(dict(history=list(hists[len(hists) // 2]), expression=pool[16][1], modes=['selector', 'selector_iter', 'token']))
     chk.coverage['history_pool'] = dict(expressions=len(pool), histories=len(hists), contexts=3)
     chk.coverage['exhaustive'] = True
